@@ -134,7 +134,19 @@ def r2_order_coverage(r, facts):
                     over_self = any(x[0] == 'call' and x[1] == 'std::iter::Iterator::next' and any(y[0] == 'arg' and y[1] == 1 for y in subexprs(x)) for x in subexprs(a))
                     if over_self and (meth in ('is_empty', 'has_spare_capacity') or table_loop_complete(f, loc)):
                         looped = True
-            r.inst('%s for [B; N]: maps %s%s' % (meth, sorted(fnrefs), ' (explicit loop)' if looped else ''), f.where())
+            # or through a closure handed to an iterator adaptor (`any(|b| !b.is_empty())`, `map(|b| b.len())`)
+            for loc, s_ in f.assigns():
+                if s_['rv']['k'] == 'agg' and s_['rv'].get('ak') == 'closure':
+                    cg = facts.fn_opt(s_['rv'].get('closure') or '')
+                    if cg is None:
+                        continue
+                    ce = ExprBuilder(cg, multi='phi')
+                    for l2, t2 in cg.calls():
+                        if (t2.get('callee') or '').endswith('::' + inner) and t2['args']:
+                            a2 = ce.operand(t2['args'][0])
+                            if any(x[0] == 'arg' and x[1] == 2 for x in subexprs(a2)):
+                                looped = True
+            r.inst('%s for [B; N]: maps %s%s' % (meth, sorted(fnrefs), ' (explicit loop / closure)' if looped else ''), f.where())
             r.require(looped or any(x.endswith('::' + inner) for x in fnrefs), '%s/array' % meth, '%s of [B; N] does not fold the per-element %s' % (meth, inner), f.where())
     # array set_init loop body has the same shape
     for i, f in facts.impl_fns('io::traits::BufMutSlice', 'set_init'):
@@ -299,6 +311,15 @@ def canon(e):
     if k == 'proj' and e[2] == ('.0',) and e[1][0] == 'bin':
         return canon(e[1])
     if k == 'phi':
+        # `u32::try_from(limit).unwrap_or(u32::MAX)` written out (the normaliser desugars unwrap_or): the Ok payload of
+        # try_from(limit) on one side, u32::MAX on the other
+        alts = list(e[1])
+        mx = [a for a in alts if a[0] == 'const' and a[1] == 0xFFFFFFFF]
+        tf = [a for a in alts if a[0] == 'proj' and tuple(a[2]) == ('@Ok', '.0') and a[1][0] == 'call' and a[1][1].endswith('try_from')]
+        if len(alts) == 2 and len(mx) == 1 and len(tf) == 1:
+            inner = [x for x in subexprs(tf[0]) if x[0] == 'proj' and fam.last_field(x) == 'limit']
+            if inner:
+                return ('SAT32', obj(inner[0]))
         return ('ALT', tuple(sorted({repr(canon(a)) for a in e[1]})))
     if k == 'call':
         name = e[1]
@@ -561,9 +582,19 @@ def r4_guards(r, facts):
                     narrowed = [x for x in subexprs(e0) if (x[0] == 'cast' and x[1] == 'IntToInt' and x[3] in ('u32', 'u16')) or (x[0] == 'call' and x[1].endswith('try_from'))]
                     r.require(fam.last_field(e0) == 'limit' or (any(fam.last_field(x) == 'limit' for x in subexprs(e0)) and not narrowed), 'LimitedBuf::%s/left-init' % meth,
                               'the remaining-limit counter is not initialised with the full self.limit: %s' % (e0,), g.where(left0[0]))
+            # `set_len(min(len, left))`: never longer than the iovec was and never longer than what is left of the limit
+            arg_ok = _is_left(arg)
+            am = arg
+            while am[0] == 'cast':
+                am = am[4]
+            if am[0] == 'call' and am[1] in ('std::cmp::min', 'std::cmp::Ord::min') and len(am[2]) == 2:
+                sides = list(am[2])
+                if any(_is_left(x) for x in sides) and any(any(y[0] == 'call' and y[1].endswith('::len') for y in subexprs(x)) for x in sides if not _is_left(x)):
+                    ok = True
+                    arg_ok = True
             r.inst('LimitedBuf::%s: set_len(%s) guarded: %s' % (meth, arg, ok), g.where(loc))
             r.require(ok, 'LimitedBuf::%s/guard' % meth, 'an iovec is resized without `len > left` dominating it (could grow past the buffer)', g.where(loc))
-            r.require(_is_left(arg), 'LimitedBuf::%s/arg' % meth, 'the iovec is not cut to the remaining limit: %s' % (arg,), g.where(loc))
+            r.require(arg_ok, 'LimitedBuf::%s/arg' % meth, 'the iovec is not cut to the remaining limit: %s' % (arg,), g.where(loc))
     # IoSlice::skip call sites: guarded by skip < len (else branch of len <= skip)
     n = 0
     for g, loc, t in facts.callers.get('io::traits::IoSlice::skip', []):
